@@ -59,6 +59,9 @@ type buildEnv struct {
 	aborted  bool
 	faults   []fault
 	faulted  []int // ordinals actually faulted
+	faultedAdd []int // index (in call order) of the Add call that was running when each fault fired
+	kinds    []string // kind of callback per ordinal (index ordinal-1)
+	currentAdd int
 	yield    func()
 	onCall   func(ordinal int, phase string) // crash-point hook: "enter" / "exit"
 	problems []string                        // harness-side observations (finder saw wrong content, ...)
@@ -114,15 +117,21 @@ func (be *buildEnv) record(ctx context.Context, kind, key string) {
 
 // enter registers one callback invocation; it returns the ordinal and the
 // fault to apply (Mode "" = none).
-func (be *buildEnv) enter() (int, string) {
+func (be *buildEnv) enter(kind ...string) (int, string) {
 	be.mu.Lock()
 	be.calls++
 	n := be.calls
+	k := ""
+	if len(kind) > 0 {
+		k = kind[0]
+	}
+	be.kinds = append(be.kinds, k)
 	mode := ""
 	for _, f := range be.faults {
 		if f.At == n {
 			mode = f.Mode
 			be.faulted = append(be.faulted, n)
+			be.faultedAdd = append(be.faultedAdd, be.currentAdd)
 		}
 	}
 	if be.limit > 0 && n > be.limit {
@@ -179,7 +188,7 @@ func (be *buildEnv) FetchSourcePackage(ctx context.Context, sourceType string, u
 		key = be.pkgs[i].String()
 	}
 	be.record(ctx, "fetch", key)
-	n, mode := be.enter()
+	n, mode := be.enter("fetch")
 	defer be.exit(n)
 	switch mode {
 	case "abort":
@@ -235,7 +244,7 @@ func (be *buildEnv) regIndex(pkg regaddr.ModulePackage) int {
 func (be *buildEnv) ModulePackageVersions(ctx context.Context, pkgAddr regaddr.ModulePackage) (sourcebundle.ModulePackageVersionsResponse, error) {
 	var resp sourcebundle.ModulePackageVersionsResponse
 	be.record(ctx, "versions", pkgAddr.String())
-	n, mode := be.enter()
+	n, mode := be.enter("versions")
 	defer be.exit(n)
 	if mode == "abort" {
 		return resp, fmt.Errorf("harness: callback budget exceeded")
@@ -260,7 +269,7 @@ func (be *buildEnv) ModulePackageVersions(ctx context.Context, pkgAddr regaddr.M
 func (be *buildEnv) ModulePackageSourceAddr(ctx context.Context, pkgAddr regaddr.ModulePackage, version versions.Version) (sourcebundle.ModulePackageSourceAddrResponse, error) {
 	var resp sourcebundle.ModulePackageSourceAddrResponse
 	be.record(ctx, "sourceaddr", pkgAddr.String()+"@"+version.String())
-	n, mode := be.enter()
+	n, mode := be.enter("sourceaddr")
 	defer be.exit(n)
 	if mode == "abort" {
 		return resp, fmt.Errorf("harness: callback budget exceeded")
@@ -327,7 +336,7 @@ func (f *hFinder) FindDependencies(fsys fs.FS, subPath string, deps *sourcebundl
 		be.problem("finder %d: the file system handed to FindDependencies has no readable marker file: %v", f.idx, err)
 	}
 	be.record(nil, "find", content+"|"+subPath+"|"+strconv.Itoa(f.idx))
-	n, mode := be.enter()
+	n, mode := be.enter("find")
 	defer be.exit(n)
 	if mode == "abort" {
 		return sourcebundle.Diagnostics{hDiag{sev: sourcebundle.DiagError, summary: "harness: callback budget exceeded"}}
@@ -621,6 +630,9 @@ func runBuild(w *gen.World, dir string, o buildOpts) *buildResult {
 		for k, ai := range order {
 			tag := fmt.Sprintf("A%d", k)
 			ctx := context.WithValue(base, tagKey, tag)
+			be.mu.Lock()
+			be.currentAdd = k
+			be.mu.Unlock()
 			d, p := doAdd(ctx, b, be, w.Adds[ai])
 			res.Adds[k] = addResult{Add: w.Adds[ai], Diags: d, Panic: p, Tag: tag}
 			if d.HasErrors() || p != "" {
